@@ -28,6 +28,9 @@ var specialNames = []hname{
 	{"host", "Host", []string{"h1.example", "h2.example:8443", "h3"}},
 	{"authorization", "Authorization", []string{"Bearer t1", "Basic dXNlcjpwdw==", "Bearer t3"}},
 	{"set-cookie", "Set-Cookie", []string{"sid=1; Path=/", "sid=2; HttpOnly", "sid=3"}},
+	{"proxy-authorization", "Proxy-Authorization", []string{"Basic cHJveHk6cHc=", "Bearer p-2", "Basic cDM6cHc="}},
+	{"x-api-key", "X-Api-Key", []string{"k-9f8e7d", "k-000", "k-3"}},
+	{"cookie", "Cookie", []string{"sid=abc; theme=dark", "sid=xyz", "sid=3; a=b"}},
 	{"x-lunar-sequence-id", "X-Lunar-Sequence-Id", []string{"s-1", "s-2", "s-3"}},
 	{"x-lunar-retry-after", "X-Lunar-Retry-After", []string{"1", "30", "0"}},
 	{"x-lunar-consumer-tag", "X-Lunar-Consumer-Tag", []string{"t-a", "t-b", "t-c"}},
@@ -162,6 +165,8 @@ var sessionNamings = [][4]string{
 	{"host", "authorization", "set-cookie", "x-lunar-sequence-id"},
 	{"Content-Type", "Content-Length", "Content-Encoding", "Transfer-Encoding"},
 	{"Host", "Authorization", "Set-Cookie", "X-Lunar-Sequence-Id"},
+	{"x-api-key", "cookie", "proxy-authorization", "set-cookie"},
+	{"X-API-KEY", "Cookie", "Proxy-Authorization", "AUTHORIZATION"},
 }
 
 // specialEntry draws a special name (spelled per mode) and one of its values.
